@@ -256,7 +256,10 @@ def find_dispatch_loops(scope):
         if len(names) != 6 or not isinstance(target, ast.Tuple):
             continue
         if not (isinstance(it, ast.Subscript) and (attr_chain(it.value) or '').split('.')[-1] == 'ops'):
-            continue
+            # another spelling of the op rows (a helper method / generator over the level table): accepted as a dispatch loop when the body is a chain on
+            # the first target name; which rows it visits is then *evaluated* (kvstatic/opsiter.py) by the rules that consume the loop
+            if not (isinstance(it, ast.Call) and any(isinstance(st, ast.If) and eq_key(st.test, names[0]) is not None for st in loop.body)):
+                continue
         opvar, outvar, invars = names[0], names[1], names[2:]
         body = list(loop.body)
         rebinding = None
